@@ -231,6 +231,11 @@ def retainedFlags (kind : ExtKind) (bs : List (Bounds α)) : List Bool :=
       (!equalFixed || j < i)
     !dominated
 
+/-- fix 46b0121: an operand whose evaluation may fail is never pruned (lowering it is what reports the error):
+retained iff not dominated or `may_be_undefined`. -/
+def retainedFlagsE (kind : ExtKind) (es : List (Exp α)) (bs : List (Bounds α)) : List Bool :=
+  List.zipWith (fun f e => f || Exp.mayBeUndefined e) (retainedFlags kind bs) es
+
 def selectFlagged {β : Type} : List β → List Bool → List β
   | x :: xs, f :: fs => if f then x :: selectFlagged xs fs else selectFlagged xs fs
   | _, _ => []
@@ -396,7 +401,7 @@ def linExtreme (kind : ExtKind) (es : List (Exp α)) (req : Req) : M α (Ctx α)
   if es.isEmpty then fail (.emptyAggregation kind.name) else
   let s ← get
   let obs := boundsOfList s.bounds es
-  let flags := retainedFlags kind obs
+  let flags := retainedFlagsE kind es obs
   let nRet := (flags.filter id).length
   if nRet == 0 then fail (.emptyAggregation kind.name)
   else if nRet == 1 then linFirstFlagged es flags req
@@ -731,8 +736,10 @@ def tryNormalize (d : List (DomVar α)) (lhs : Exp α) (cmp : Cmp) (rhs : Exp α
       match cmpHolds zero cmp c, cmpHolds one cmp c with
       | false, true => some (.assertion e true)
       | true, false => some (.assertion e false)
-      | true, true => some .tautology
-      | false, false => some .contradiction
+      -- fix ba14904: a logic value whose evaluation may fail is not decided from the constant alone — the
+      -- generic path lowers it and reports the error
+      | true, true => if Exp.mayBeUndefined e then none else some .tautology
+      | false, false => if Exp.mayBeUndefined e then none else some .contradiction
 
 /-! ### `Linearizer::linearize` -/
 
